@@ -22,7 +22,36 @@ pub fn info() -> PropInfo {
     }
 }
 
+/// One case in ~6000: a credential with more than 2^16 DISCLOSURES (a long array under
+/// AllLevels) of which the holder selects a few, among them some beyond position 65 535. Only the
+/// issuer and the holder run here (the verifier is quadratic in the number of disclosures).
+fn huge_case() -> BoxedStrategy<Case> {
+    (proptest::sample::select(vec![65_600usize, 66_000]), proptest::collection::vec(any::<u32>(), 1..4), fmt_strategy(), alg_strategy())
+        .prop_map(|(n, picks, fmt, alg)| {
+            let readings: Vec<serde_json::Value> = (0..n).map(|i| serde_json::Value::from(i as u64)).collect();
+            let claims = serde_json::json!({"iss": "https://issuer.example", "exp": 4_000_000_000u64, "readings": readings});
+            let mut sel = vec![serde_json::Value::Bool(false); n];
+            for (k, p) in picks.iter().enumerate() {
+                let i = match k % 3 {
+                    0 => 65_536 + (*p as usize) % (n - 65_536),
+                    1 => (*p as usize) % 64,
+                    _ => (*p as usize) % n,
+                };
+                sel[i] = serde_json::Value::Bool(true);
+            }
+            let mut selection = serde_json::Map::new();
+            selection.insert("readings".into(), serde_json::Value::Array(sel));
+            let issue = sdjwt_model::sut::IssueSpec { claims, strat: sdjwt_model::tree::Strat::AllLevels, decoys: false, fmt, alg, holder: sdjwt_model::keys::HolderKey::None };
+            C06Case { issue, selection, kb: None, arbitrary: false, then: None }
+        })
+        .boxed()
+}
+
 pub fn strategy() -> BoxedStrategy<Case> {
+    prop_oneof![6000 => normal_strategy(), 1 => huge_case()].boxed()
+}
+
+fn normal_strategy() -> BoxedStrategy<Case> {
     (
         issue_spec_strategy(ClaimCfg::SHORT_F64, HONEST_PATHS, holder_strategy()),
         choices_strategy(),
